@@ -269,6 +269,12 @@ def finish(prop, tier, seed, t0, work, mc, scenarios, traces, results, violation
             print("VIOLATION property=%s replay=%s" % (prop, path))
             V.log("  ", what)
         return 1
+    if others.get("BIND"):
+        # recorded events that no action of the specification can be bound to (an unknown internal id,
+        # a turn no request explains): those histories were NOT judged, so "held on everything
+        # explored" cannot be said - and no property can be blamed either
+        raise V.ToolError("%d histories could not be bound to the specification (conformance failure that is not "
+                          "attributable to a property); they were not judged" % others["BIND"])
     print("OK property=%s tier=%s histories=%d accepted=%d states=%d wall=%.1fs"
           % (prop, tier, len(infos), accepted, coverage["states"], wall))
     if others:
@@ -702,6 +708,10 @@ def stream_ctrl_scenarios(seed, quick):
         ("repeat-then-extend", [dict(mods=[[{"d": 1}, 15], [{"d": 1}, 15], [{"d": 2}, 60]])]),
         ("repeat-then-nack", [dict(mods=[[{"d": 2}, 30], [{"d": 2}, 30], [{"d": 1}, 0], [{"d": 3}, 45]])]),
         ("repeat-acks", [dict(acks=[{"d": 1}, {"d": 1}], mods=[[{"d": 2}, 20], [{"d": 3}, 20], [{"d": 3}, 50]])]),
+        # one delivery extended and then given back in the same message (and the other way round): the
+        # abandoned extension must leave nothing behind that goes off later
+        ("extend-then-nack-same", [dict(mods=[[{"d": 1}, 15], [{"d": 1}, 0], [{"d": 2}, 20]])]),
+        ("nack-then-extend-same", [dict(mods=[[{"d": 2}, 0], [{"d": 2}, 25], [{"d": 1}, 12], [{"d": 1}, 35]])]),
     ]
     for k, (name, msgs) in enumerate(shapes):
         for cap in ((16, 1) if quick else (16, 1, 2)):
@@ -832,7 +842,9 @@ def plan_c05(prop, tier, seed, t0):
         return out
     return core_check(prop, tier, seed, t0, over, explore=[("data", 32, 1000), ("consumers", 16, 1000)],
                       extra_scenarios=lambda quick, sd: extra(quick, sd) + stream_ctrl_scenarios(sd, quick)
-                      + [x for x in big_batch_scenarios(sd, quick) if "ack-" not in x["id"] or "nack" in x["id"]],
+                      + [x for x in big_batch_scenarios(sd, quick) if "ack-" not in x["id"] or "nack" in x["id"]]
+                      # modifications on a subscription whose topic is gone
+                      + orphan_scenarios(sd, quick),
                       thorough={"mc": dict(MaxOps=8, MaxMsgs=3, SubNames={S1, S2})})
 
 
@@ -1116,7 +1128,10 @@ def c12_scenarios(n_seeds, seed):
     for k in range(n_seeds):
         sd = seed * 1000 + k
         cap = (16, 1, 2)[k % 3]
-        pre = [call(1, op="CreateTopic", name=T1), call(1, op="CreateSub", name=S1, topic=T1, ack=10)]
+        # (every fifth: the subscription also has a push endpoint - on which nothing listens; consumers
+        # that pull from it are released by its deletion like any others)
+        pre = [call(1, op="CreateTopic", name=T1),
+               call(1, op="CreateSub", name=S1, topic=T1, ack=10, **({"push": "http://127.0.0.1:9/c12"} if k % 5 == 4 else {}))]
         if k % 2:
             pre.append(call(1, op="Publish", topic=T1, msgs=[{"p": "pre-%d" % k}]))
         y = {"do": "yield", "n": 1 + (k % 4)}
@@ -1860,7 +1875,9 @@ def c12_mc(work, quick, violations):
                               "d2": ("delete", "s1"), "pub": ("publish", "s1"), "n": ("nack", "s1")}, 2))
     invs = ["TypeOK", "C12_Released", "C12_Status", "C07_NoHang"]
     for name, procs, cap in configs:
-        r = V.actors_mc(os.path.join(work, "mc"), "c12_" + name, procs, cap=cap, backlog=1, max_expire=1, invariants=invs)
+        # (config c: 58 million distinct states, 10 to 15 minutes at 16 workers on an idle machine)
+        r = V.actors_mc(os.path.join(work, "mc"), "c12_" + name, procs, cap=cap, backlog=1, max_expire=1, invariants=invs,
+                        workers=16 if name == "c" else 8, timeout=3600 if name == "c" else 900)
         if r["stats"]:
             total["generated"] += r["stats"]["generated"]
             total["distinct"] += r["stats"]["distinct"]
@@ -2001,6 +2018,27 @@ def plan_c18(prop, tier, seed, t0):
                                                    "scenario": scn("c18-replay", [{"do": "parse", "fn": v.get("fn"), "s": v.get("str")}]),
                                                    "how": "bin/check C18 --replay <this file>"})
                     violations.append(("%s parser on %r" % (v.get("fn"), v.get("str")), path))
+    # "names that differ in project or ID denote different resources" on the running server: the same
+    # ids in several projects (whose ids begin alike), every name created, looked up, listed and
+    # pulled from on its own; judged by the trace specification (a name that never existed and is
+    # treated as bound, or resolved to a resource, is taken for another name: tag C18)
+    srv = prefix_project_scenarios(seed, quick)
+    srv_path = os.path.join(work, "server.ndjson")
+    V.write_scenarios(srv_path, srv)
+    srv_traces = V.dvh_replay(srv_path, os.path.join(work, "server"), 2)
+    srv_accepted = 0
+    for r in V.validate_traces(srv_traces, work, parallel=2):
+        if r["error"]:
+            tool_errors.append(r["error"])
+        srv_accepted += (r["summary"] or {}).get("ok", 0)
+        for v in r["viol"]:
+            if prop in v.get("props", []):
+                n += 1
+                path = V.save_replay(prop, 100 + n, {"kind": "history", "violation": v, "trace_file": r["trace"],
+                                                     "history": V.history_of(r["trace"], v.get("run"))})
+                violations.append(("server history %s" % v.get("run"), path))
+    extra_cov["server_histories_with_equal_ids_in_several_projects"] = len(srv)
+    extra_cov["server_histories_accepted"] = srv_accepted
     for line in sorted(known_lines):
         print(line)
     coverage = {"states": mc["stats"]["distinct"], "transitions": mc["stats"]["generated"],
@@ -2167,6 +2205,8 @@ def plan_c19(prop, tier, seed, t0):
         total["distinct"] += st["distinct"]
         if "No error has been found" not in out:
             m = re.search(r"Error: (.*)", out)
+            if not m:
+                raise V.ToolError("TLC did not complete on FlowControl config %s:\n%s" % (name, out[-1500:]))
             path = V.save_replay(prop, 0, {"kind": "model", "config": name, "error": m.group(1) if m else "?", "tlc_output_tail": out[-5000:]})
             violations.append(("model FlowControl %s: %s" % (name, m.group(1) if m else "error"), path))
         scheds = []
